@@ -269,6 +269,31 @@ func dischargeOne(o *Obl, dir string, timeoutS int, all bool) {
 	if o.Status == "unsat" && strings.HasPrefix(o.Solver, "syntactic") {
 		return
 	}
+	dischargeOne1(o, dir, timeoutS, all)
+	if all && !o.Cover && o.Status == "unsat" && o.provedFile != "" {
+		// thorough tier: the proving query is put to the other solvers as well; an answer `sat` from any
+		// of them is a conflict and the obligation counts as failed
+		agree := 0
+		for _, sp := range solvers {
+			if strings.HasPrefix(o.Solver, sp.name) {
+				continue
+			}
+			r := runSolver(context.Background(), sp, o.provedFile, 10)
+			switch r.status {
+			case "unsat":
+				agree++
+			case "sat":
+				o.Status = "conflict"
+				o.Solver += " vs " + sp.name
+				o.Model = r.out
+				return
+			}
+		}
+		o.Solver += fmt.Sprintf(" (+%d agreeing)", agree)
+	}
+}
+
+func dischargeOne1(o *Obl, dir string, timeoutS int, all bool) {
 	fn := filepath.Join(dir, fileSafe.ReplaceAllString(o.Name, "_")+".smt2")
 	o.File = fn
 	txt := o.smt(nil)
@@ -296,6 +321,7 @@ func dischargeOne(o *Obl, dir string, timeoutS int, all bool) {
 	if r0 := runSolver(context.Background(), solvers[0], fn, 1); r0.status == "unsat" || r0.status == "sat" {
 		o.Status, o.Solver, o.Time, o.Model = r0.status, r0.solver, r0.dur, r0.out
 		if r0.status == "unsat" {
+			o.provedFile = fn
 			return
 		}
 		// a model: confirm with the portfolio on the full VC below (another solver may refute it
@@ -313,6 +339,7 @@ func dischargeOne(o *Obl, dir string, timeoutS int, all bool) {
 		r := race(ufn, min(8, timeoutS))
 		if r.status == "unsat" {
 			o.Status, o.Solver, o.Time, o.Model = r.status, r.solver+" (recursive definitions unfolded at their applications)", r.dur, r.out
+			o.provedFile = ufn
 			return
 		}
 		o.Time += r.dur
@@ -328,6 +355,7 @@ func dischargeOne(o *Obl, dir string, timeoutS int, all bool) {
 		r := race(sfn, min(3, timeoutS))
 		if r.status == "unsat" {
 			o.Status, o.Solver, o.Time, o.Model = r.status, r.solver+" (small-facts VC)", r.dur, r.out
+			o.provedFile = sfn
 			return
 		}
 		o.Time += r.dur
@@ -341,6 +369,7 @@ func dischargeOne(o *Obl, dir string, timeoutS int, all bool) {
 		r := race(afn, min(5, timeoutS))
 		if r.status == "unsat" {
 			o.Status, o.Solver, o.Time, o.Model = r.status, r.solver+" (large applications generalised)", r.dur, r.out
+			o.provedFile = afn
 			return
 		}
 		o.Time += r.dur
@@ -410,13 +439,17 @@ func dischargeOne(o *Obl, dir string, timeoutS int, all bool) {
 		r := race(sfn, min(5, timeoutS))
 		if r.status == "unsat" {
 			o.Status, o.Solver, o.Time, o.Model = r.status, r.solver+" (sliced VC)", r.dur, r.out
+			o.provedFile = sfn
 			return
 		}
 		o.Time += r.dur
 	}
-	r := portfolio(fn, timeoutS, all)
+	r := portfolio(fn, timeoutS, false)
 	o.Status, o.Solver, o.Model = r.status, r.solver, r.out
 	o.Time += r.dur
+	if r.status == "unsat" {
+		o.provedFile = fn
+	}
 }
 
 // smallFacts: the assumptions whose term DAG has at most limit nodes.
